@@ -1,0 +1,42 @@
+//go:build verif
+
+// Licensed to LinDB under one or more contributor
+// license agreements. See the NOTICE file distributed with
+// this work for additional information regarding copyright
+// ownership. LinDB licenses this file to you under
+// the Apache License, Version 2.0 (the "License"); you may
+// not use this file except in compliance with the License.
+// You may obtain a copy of the License at
+//
+//     http://www.apache.org/licenses/LICENSE-2.0
+//
+// Unless required by applicable law or agreed to in writing,
+// software distributed under the License is distributed on an
+// "AS IS" BASIS, WITHOUT WARRANTIES OR CONDITIONS OF ANY
+// KIND, either express or implied.  See the License for the
+// specific language governing permissions and limitations
+// under the License.
+
+package model
+
+import (
+	"github.com/lindb/lindb/pkg/trie"
+)
+
+// This file only exists with the "verif" build tag. It exposes the package's
+// test seam for obtaining a trie while a bucket is decoded from a kv table to the
+// external verification harness (C10); it changes no behaviour.
+
+// VerifGetTrieFn returns the current trie provider.
+func VerifGetTrieFn() func() trie.SuccinctTrie {
+	return getTrieFn
+}
+
+// VerifSetGetTrieFn installs the trie provider (called for every trie of a bucket
+// that is decoded from a table file, i.e. after the dictionary lookup took its kv
+// snapshot and before it reads the memory stores).
+func VerifSetGetTrieFn(fn func() trie.SuccinctTrie) {
+	if fn != nil {
+		getTrieFn = fn
+	}
+}
